@@ -101,9 +101,9 @@ def run(ctx) -> Result:
         else:
             hist = pipe.gen_history(rng, n_ops=rng.randint(3, 12), paced=True, burst_prob=rng.choice([0.0, 0.5, 0.9]),
                                     rename_after_arrival=0.3)
-        # every tenth run: another process creates a directory in a directory at the moment it is about to be watched
+        # every seventh run: another process creates a directory in a directory at the moment it is about to be watched
         # (1-2 of the first add_watch calls of the run, the initial scan included)
-        late = tuple(sorted({rng.randint(0, 5) for _ in range(rng.randint(1, 2))})) if i % 10 == 7 else ()
+        late = tuple(sorted({rng.randint(0, 3) for _ in range(rng.randint(1, 2))})) if i % 7 == 4 else ()
         one(ctx, res, hist, cfg, batch, late_at=late)
     pipecheck.check_model(res, "C02", batch)
     return res
